@@ -72,6 +72,9 @@ pub enum Entries {
     Literal(Vec<(B, B)>),
     /// n big-endian counters of `width` bytes starting at `start` with `stride`; value = `vlen` bytes derived from the key
     Counter { n: u64, width: u8, start: u64, stride: u64, vlen: u32 },
+    /// the keys of `Counter`, values of `vlen` incompressible bytes (a splitmix64 stream keyed by
+    /// `seed` and the key): blocks that stay large under every codec
+    Noise { n: u64, width: u8, start: u64, stride: u64, vlen: u32, seed: u64 },
 }
 
 impl Entries {
@@ -79,6 +82,7 @@ impl Entries {
         match self {
             Entries::Literal(v) => v.len(),
             Entries::Counter { n, .. } => *n as usize,
+            Entries::Noise { n, .. } => *n as usize,
         }
     }
     pub fn materialize(&self) -> Vec<(Vec<u8>, Vec<u8>)> {
@@ -114,6 +118,22 @@ impl Entries {
                     while (val.len() as u32) < *vlen {
                         val.push((x.wrapping_mul(31).wrapping_add(j as u64 * 7) & 0xff) as u8);
                         j += 1;
+                    }
+                    if !f(key, &val) {
+                        return;
+                    }
+                }
+            }
+            Entries::Noise { n, width, start, stride, vlen, seed } => {
+                let mut val = vec![0u8; *vlen as usize];
+                for i in 0..*n {
+                    let x = start.wrapping_add(i.wrapping_mul(*stride));
+                    let kb = x.to_be_bytes();
+                    let key = &kb[8 - *width as usize..];
+                    let mut st = crate::rng::mix(*seed, x);
+                    for c in val.chunks_mut(8) {
+                        let w = crate::rng::splitmix64(&mut st).to_le_bytes();
+                        c.copy_from_slice(&w[..c.len()]);
                     }
                     if !f(key, &val) {
                         return;
